@@ -27,8 +27,8 @@ pub struct Case {
 fn instr() -> impl Strategy<Value = Vec<u8>> {
     prop_oneof![
         8 => Just(vec![0x00u8]),
-        4 => (0u8..8, any::<u8>()).prop_filter("not (HL)", |(r, _)| *r != 6).prop_map(|(r, n)| vec![0x06 | (r << 3), n]),
-        3 => (0u8..8).prop_filter("not (HL)", |r| *r != 6).prop_map(|r| vec![0x04 | (r << 3)]),
+        4 => (0u8..7, any::<u8>()).prop_map(|(r, n)| { let r = if r == 6 { 7 } else { r }; vec![0x06 | (r << 3), n] }),
+        3 => (0u8..7).prop_map(|r| { let r = if r == 6 { 7 } else { r }; vec![0x04 | (r << 3)] }),
         10 => Just(vec![0xFBu8]),             // EI
         6 => Just(vec![0xF3u8]),              // DI
         4 => Just(vec![0x76u8]),              // HALT
